@@ -3,6 +3,7 @@ package loader
 import (
 	jschema "github.com/jsightapi/jsight-schema-go-library"
 	"github.com/jsightapi/jsight-schema-go-library/errors"
+	"github.com/jsightapi/jsight-schema-go-library/internal/json"
 	"github.com/jsightapi/jsight-schema-go-library/internal/lexeme"
 	"github.com/jsightapi/jsight-schema-go-library/notations/jschema/internal/schema"
 	"github.com/jsightapi/jsight-schema-go-library/notations/jschema/internal/schema/constraint"
@@ -212,19 +213,24 @@ func (s *orRuleSetLoader) makeTypeFromRuleSet() {
 // be used with the JSON type the rule-set declares. The schema checker skips
 // mixed nodes, so nobody else does it.
 func (s *orRuleSetLoader) checkCompatibilityOfConstraints(declaredType string) {
-	if declaredType == "" {
-		return
+	// The JSON types the rule-set can describe. Without a declared JSON type
+	// ("decimal", "email", "enum"... aren't JSON types) it can be any of them,
+	// and every rule narrows the list down to the types it can be used with.
+	tt := json.AllTypes
+	if _, ok := jsonTypesHandler[declaredType]; declaredType != "" && !ok {
+		tt = []json.Type{s.typeRoot.Type()}
 	}
-	if _, ok := jsonTypesHandler[declaredType]; ok {
-		// Not a JSON type ("decimal", "email", "enum"...): the compiler
-		// has its own checks for them.
-		return
-	}
-	t := s.typeRoot.Type()
 	err := s.typeRoot.ConstraintMap().Each(func(_ constraint.Type, v constraint.Constraint) error {
-		if !v.IsJsonTypeCompatible(t) {
-			return errors.Format(errors.ErrUnexpectedConstraint, v.Type().String(), declaredType)
+		rest := make([]json.Type, 0, len(tt))
+		for _, t := range tt {
+			if v.IsJsonTypeCompatible(t) {
+				rest = append(rest, t)
+			}
 		}
+		if len(rest) == 0 {
+			return errors.Format(errors.ErrUnexpectedConstraint, v.Type().String(), tt[0].String())
+		}
+		tt = rest
 		return nil
 	})
 	if err != nil {
